@@ -204,6 +204,18 @@ func (u *Unit) Run() {
 		}
 	}
 	exit, results := u.execBody(fr, st)
+	if ct != nil {
+		for _, at := range ct.AtCalls {
+			label := at.Clause.Label
+			if label == "" {
+				label = "1"
+			}
+			if u.counters["at@"+at.Callee+"#"+label] == 0 {
+				// nothing to prove: said in the evidence, so that a misspelt anchor does not pass for a proof
+				u.note("`at " + at.Callee + " " + label + "` of " + shortName(funcKey(fn)) + " matched no site in the unit (it holds vacuously)")
+			}
+		}
+	}
 	for k, n := range u.atApplied {
 		if n == 0 {
 			panic(unsupported{"contract expression: `at " + k + "` names variables that are in scope at none of the matching calls"})
